@@ -95,26 +95,49 @@ def scan_generative():
                 def is_self_attr(node):
                     return isinstance(node, ast.Attribute) and isinstance(node.value, ast.Name) and node.value.id == selfname
 
-                assigned = {}  # attr -> first line where self.attr = <something> (plain assignment)
+                # guards: `self.attr = <fresh>` as an UNCONDITIONAL top-level statement of the body
+                assigned = {}
+                alias = {}  # local name -> attr it aliases (x = self.attr / self.attr = x = ...)
+                for stmt_ in f.body:
+                    if isinstance(stmt_, ast.Assign):
+                        attrs = [el.attr for tg in stmt_.targets for el in (tg.elts if isinstance(tg, ast.Tuple) else [tg]) if is_self_attr(el)]
+                        for at in attrs:
+                            assigned[at] = min(assigned.get(at, 10 ** 9), stmt_.lineno)
                 for sub in ast.walk(f):
                     if isinstance(sub, ast.Assign):
-                        for tg in sub.targets:
-                            for el in (tg.elts if isinstance(tg, ast.Tuple) else [tg]):
-                                if is_self_attr(el):
-                                    assigned[el.attr] = min(assigned.get(el.attr, 10 ** 9), sub.lineno)
+                        names = [tg.id for tg in sub.targets if isinstance(tg, ast.Name)]
+                        attrs = [tg.attr for tg in sub.targets if is_self_attr(tg)]
+                        if names and attrs:
+                            for nm in names:
+                                alias[nm] = attrs[0]
+                        elif names and is_self_attr(sub.value):
+                            for nm in names:
+                                alias[nm] = sub.value.attr
 
                 def guard(attr, line):
                     return "guarded" if assigned.get(attr, 10 ** 9) < line else "UNGUARDED"
 
+                def target_attr(node):
+                    """self.attr or a local alias of it -> attr name"""
+                    if is_self_attr(node):
+                        return node.attr
+                    if isinstance(node, ast.Name) and node.id in alias:
+                        return alias[node.id]
+                    return None
+
                 where = "%s:%s.%s" % (rel, cls.name, f.name)
                 for sub in ast.walk(f):
-                    if isinstance(sub, ast.Call) and isinstance(sub.func, ast.Attribute) and sub.func.attr in MUTATORS and is_self_attr(sub.func.value):
-                        rows.append("%s:%s.%s:%s" % (where, sub.func.value.attr, sub.func.attr, guard(sub.func.value.attr, sub.lineno)))
+                    if isinstance(sub, ast.Call) and isinstance(sub.func, ast.Attribute) and sub.func.attr in MUTATORS:
+                        at = target_attr(sub.func.value)
+                        if at is not None:
+                            rows.append("%s:%s.%s:%s" % (where, at, sub.func.attr, guard(at, sub.lineno)))
                     if isinstance(sub, (ast.Assign, ast.AugAssign, ast.Delete)):
                         targets = sub.targets if isinstance(sub, (ast.Assign, ast.Delete)) else [sub.target]
                         for tg in targets:
-                            if isinstance(tg, ast.Subscript) and is_self_attr(tg.value):
-                                rows.append("%s:%s[]:%s" % (where, tg.value.attr, guard(tg.value.attr, sub.lineno)))
+                            if isinstance(tg, ast.Subscript):
+                                at = target_attr(tg.value)
+                                if at is not None:
+                                    rows.append("%s:%s[]:%s" % (where, at, guard(at, sub.lineno)))
                     if isinstance(sub, ast.AugAssign) and is_self_attr(sub.target):
                         rows.append("%s:%s+=:%s" % (where, sub.target.attr, guard(sub.target.attr, sub.lineno)))
     rows = sorted(set(r for r in rows if not r.endswith(":guarded")))
@@ -156,13 +179,22 @@ class Env:
         from sqlalchemy.orm import Session
 
         self.session = Session()
+        # building blocks SHARED by every tree of the run (templates people keep at module level)
+        t = self.fx.t
+        self.shared = {
+            "text_tpl": sa.text("select id, x from t where x > :lo and y < :hi").bindparams(lo=0, hi=100),
+            "text_frag": sa.text("t.x > :tx and t.y < :ty").bindparams(tx=1, ty=9999),
+            "base_select": sa.select(t.c.id, t.c.x).where(t.c.y == sa.bindparam("by", 7)),
+            "crit": sa.and_(t.c.x > sa.bindparam("cx", 3), t.c.y < 5000),
+        }
 
 
-SELECT_OPS = ["where", "where_in", "where_bind", "having", "group_by", "order_by", "order_desc", "limit", "offset", "distinct", "add_columns", "with_only_columns", "join", "outerjoin", "select_from", "correlate", "prefix_with", "suffix_with", "with_for_update", "with_hint", "execution_options", "filter_by", "params", "label_col", "where_exists", "reduce_columns", "where_text", "order_by_none", "group_by_none", "with_statement_hint", "fetch", "slice", "where_or"]
+SELECT_OPS = ["where_shared_text", "where_shared_text", "where_shared_crit", "params_shared", "where", "where_in", "where_bind", "having", "group_by", "order_by", "order_desc", "limit", "offset", "distinct", "add_columns", "with_only_columns", "join", "outerjoin", "select_from", "correlate", "prefix_with", "suffix_with", "with_for_update", "with_hint", "execution_options", "filter_by", "params", "label_col", "where_exists", "reduce_columns", "where_text", "order_by_none", "group_by_none", "with_statement_hint", "fetch", "slice", "where_or"]
 COMPOUND_OPS = ["order_by", "limit", "offset", "execution_options", "order_by_none"]
 INSERT_OPS = ["values", "values_more", "returning", "prefix_with", "inline", "execution_options", "return_defaults"]
 UPDATE_OPS = ["where", "values", "values_more", "returning", "prefix_with", "execution_options", "where_in", "with_hint", "ordered"]
 DELETE_OPS = ["where", "returning", "prefix_with", "execution_options", "where_in", "with_hint"]
+TEXT_OPS = ["bind_kw_lo", "bind_kw_hi", "bind_kw_both", "bind_pos_lo", "bind_pos_typed", "execution_options", "bind_kw_lo"]
 QUERY_OPS = ["filter", "filter_by", "order_by", "limit", "offset", "distinct", "add_entity", "add_columns", "with_entities", "join_rel", "outerjoin_rel", "group_by", "having", "options_selectin", "add_entity_alias", "where", "execution_options", "select_from", "enable_assertions", "params", "filter_bind", "slice", "reset_order"]
 COMPOUND_OPS2 = ["order_by", "order_by_str", "limit", "offset", "execution_options", "order_by_none", "label_none", "label_tablename", "label_disambiguate", "fetch", "slice", "order_desc_str"]
 ORM_OPS = ["where", "where_in", "order_by", "limit", "offset", "distinct", "join_rel", "options_selectin", "options_joined", "options_load_only", "options_criteria", "filter_by", "execution_options", "group_by", "with_only_columns_orm", "where_bind", "params"]
@@ -184,6 +216,10 @@ def base_stmt(env, kind):
         return sa.except_(sa.select(t.c.id, t.c.x), sa.select(u.c.tid, u.c.v).where(u.c.v > 7))
     if kind == "compound_nested":
         return sa.union_all(sa.select(t.c.id, t.c.x), sa.intersect(sa.select(u.c.id, u.c.v), sa.select(t.c.id, t.c.y)))
+    if kind == "text":
+        return env.shared["text_tpl"]
+    if kind == "shared_select":
+        return env.shared["base_select"]
     if kind == "query":
         return env.session.query(env.T)
     if kind == "query_cols":
@@ -204,6 +240,10 @@ def base_stmt(env, kind):
 def ops_for(kind):
     if kind.startswith("compound"):
         return COMPOUND_OPS2
+    if kind == "text":
+        return TEXT_OPS
+    if kind == "shared_select":
+        return SELECT_OPS
     if kind.startswith("query"):
         return QUERY_OPS
     return {"select": SELECT_OPS, "select_join": SELECT_OPS, "compound": COMPOUND_OPS, "insert": INSERT_OPS, "update": UPDATE_OPS, "delete": DELETE_OPS, "orm": ORM_OPS, "orm_cols": ORM_OPS}[kind]
@@ -216,6 +256,27 @@ def apply_op(env, kind, st, op, a):
 
     T, U = env.T, env.U
     col = [t.c.x, t.c.y, t.c.id, t.c.s][a % 4]
+    if kind == "text":
+        if op == "bind_kw_lo":
+            return st.bindparams(lo=a)
+        if op == "bind_kw_hi":
+            return st.bindparams(hi=a)
+        if op == "bind_kw_both":
+            return st.bindparams(lo=a, hi=a + 50)
+        if op == "bind_pos_lo":
+            return st.bindparams(sa.bindparam("lo", a))
+        if op == "bind_pos_typed":
+            return st.bindparams(sa.bindparam("hi", a, type_=sa.Integer()))
+        if op == "columns":
+            return st.columns(sa.column("id", sa.Integer), sa.column("x", sa.Integer))
+        if op == "execution_options":
+            return st.execution_options(**{"k%d" % (a % 2): a})
+    if op == "where_shared_text":
+        return st.where(env.shared["text_frag"].bindparams(tx=a) if a % 2 else env.shared["text_frag"].bindparams(ty=a))
+    if op == "where_shared_crit":
+        return st.where(env.shared["crit"])
+    if op == "params_shared":
+        return st.params(cx=a, by=a + 1)
     if kind.startswith("compound"):
         if op == "order_by_str":
             return st.order_by("x" if a % 2 else "id")
@@ -429,6 +490,7 @@ def run_tree(ctx, env, spec, record=True):
     from sqlalchemy.sql import visitors
 
     kind = spec["kind"]
+    shared_birth = {k: snapshot(env, v) for k, v in env.shared.items()}
     stmts = [base_stmt(env, kind)]
     isq = kind.startswith("query")
     births = [snapshot(env, stmts[0], True)]
@@ -483,6 +545,17 @@ def run_tree(ctx, env, spec, record=True):
         return True
 
     check("after-descendants-built", lambda s: s)
+    for k_, v_ in env.shared.items():
+        now_ = snapshot(env, v_)
+        if now_ != shared_birth[k_] and "shared" not in reported:
+            reported.add("shared")
+            nviol += 1
+            diff = [d for d in now_ if now_[d] != shared_birth[k_].get(d)]
+            ctx.violation(
+                "c03:shared-template-changed",
+                {"spec": spec, "node": -1, "check": "shared:" + k_},
+                "shared building block %s changed after statements were derived from it: %s: birth %s | now %s" % (k_, diff[:2], str(shared_birth[k_].get(diff[0]))[:300], str(now_.get(diff[0]))[:300]),
+            )
     check("recompile", lambda s: s)
     if isq:
         check("cloned_traverse", lambda s: visitors.cloned_traverse(s.statement, {}, {}))
@@ -532,7 +605,7 @@ def classify(spec, label, node):
 
 
 def gen_tree(rng, maxlen):
-    kind = rng.choice(["select"] * 4 + ["select_join", "compound", "compound_union", "compound_intersect", "compound_except", "compound_nested", "insert", "update", "delete", "orm", "orm", "orm_cols", "query", "query", "query_cols"])
+    kind = rng.choice(["select"] * 4 + ["select_join", "compound", "compound_union", "compound_intersect", "compound_except", "compound_nested", "insert", "update", "delete", "orm", "orm", "orm_cols", "query", "query", "query_cols", "text", "text", "shared_select"])
     ops = ops_for(kind)
     n = rng.randint(2, maxlen)
     nodes = []
@@ -555,7 +628,7 @@ def run(ctx, deep=False):
     ctx.trusted += ["the in-place-mutation scan of the translator is syntactic (ast); harness/c03_baseline.json is the reviewed residual of the unchanged tree"]
     thorough = ctx.tier == "thorough" or deep
     env = Env()
-    n = 1200 if thorough else 200
+    n = 1200 if thorough else 130
     maxlen = 40 if thorough else 12
     for i in range(n):
         spec = gen_tree(ctx.rng, maxlen)
